@@ -45,7 +45,7 @@ def zstdBody {τ : Type} (L : ZLib τ) (fl : Flush) :
   | (st, inp, room, ai, ao) =>
     if decide (0 < inp.length) && decide (0 < room) then
       let r := L.call st inp room fl
-      if r.isError then LoopStep.done ((st, inp, room, ai, ao), true)
+      if r.isError then LoopStep.done ((r.st, inp, room, ai, ao), true)   -- the context is spoilt
       else LoopStep.next (r.st, inp.drop r.consumed, room - r.out.length, ai + r.consumed, ao ++ r.out)
     else LoopStep.done ((st, inp, room, ai, ao), false)
 
@@ -62,5 +62,20 @@ def zstdProcess {τ : Type} (L : ZLib τ) (_compress : Bool) (st : τ) (inp : By
     if fl ≠ Flush.none ∧ inp'.length = 0 then some ⟨st', ai, ao, Res.streamEnd⟩
     else if 0 < inp'.length ∧ room' = 0 then some ⟨st', ai, ao, Res.bufferFull⟩
     else some ⟨st', ai, ao, Res.ok⟩
+
+/-- the unpatched stream objects as `Codec`s (a call that never returns is shown as `error`) -/
+def wrapCodec {τ : Type} (L : Lib τ) (b : Backend) (compress : Bool) : Codec τ where
+  init := L.init
+  step s inp room fl :=
+    match wrapProcess L b compress s inp room fl with
+    | some r => r
+    | none => ⟨s, 0, [], Res.error⟩
+
+def zstdCodec {τ : Type} (L : ZLib τ) (compress : Bool) : Codec τ where
+  init := L.init
+  step s inp room fl :=
+    match zstdProcess L compress s inp room fl with
+    | some r => r
+    | none => ⟨s, 0, [], Res.error⟩
 
 end Sqfs.Xfrm.Old
